@@ -23,6 +23,7 @@ import (
 	"math/rand"
 	"reflect"
 	"regexp"
+	"sort"
 	"strconv"
 	"strings"
 	"time"
@@ -368,6 +369,50 @@ func c19Infer(t string) (col proto.Column, obs string) {
 	return a.Data, "ok " + c19StructName(a.Data) + " " + hx([]byte(a.Data.Type()))
 }
 
+// c19Idents: a dictionary of identifiers a type string could be mistaken for when a name from the wire selects code:
+// the exported method and field names of every column ColAuto builds (collected by reflection from the code under
+// test), Go keywords and predeclared names, and the library's own type-name constants in other cases.
+func c19Idents() []string {
+	seen := map[string]bool{}
+	var out []string
+	add := func(n string) {
+		if n != "" && !seen[n] {
+			seen[n] = true
+			out = append(out, n)
+		}
+	}
+	var ts []string
+	ts = append(ts, c19Scalars...)
+	ts = append(ts, "DateTime64(3)", "DateTime('UTC')", "Enum8('a' = 1)", "Enum16('a' = 1)", "FixedString(4)", "Decimal(10, 2)", "IntervalDay")
+	for _, t := range ts {
+		for _, w := range []string{"", "Array", "Nullable", "LowCardinality"} {
+			tt := t
+			if w != "" {
+				tt = w + "(" + t + ")"
+			}
+			col, _ := c19Infer(tt)
+			if col == nil {
+				continue
+			}
+			rt := reflect.TypeOf(col)
+			for i := 0; i < rt.NumMethod(); i++ {
+				add(rt.Method(i).Name)
+			}
+			if rt.Kind() == reflect.Ptr && rt.Elem().Kind() == reflect.Struct {
+				for i := 0; i < rt.Elem().NumField(); i++ {
+					add(rt.Elem().Field(i).Name)
+				}
+			}
+		}
+	}
+	for _, n := range []string{"String", "Error", "GoString", "Len", "Cap", "nil", "len", "func", "type", "interface", "struct", "map", "array", "nullable",
+		"lowcardinality", "ARRAY", "tuple", "Nested", "Variant", "Dynamic", "Object", "SimpleAggregateFunction", "AggregateFunction", "Ring", "Polygon", "MultiPolygon"} {
+		add(n)
+	}
+	sort.Strings(out)
+	return out
+}
+
 func c19Header(t string) []byte {
 	var b proto.Buffer
 	b.PutString("c")
@@ -669,6 +714,119 @@ func c19CaseData(h *H, t string) {
 	h.Emit("data "+hx([]byte(t))+" "+c19ZoneTable(t), "-", oracle)
 }
 
+// c19CaseReinfer: inference does not depend on what the column was inferred as before.  A column ColAuto built for t1
+// is told t2 through its own Infer (what ColAuto and Results do when a block of a non-conflicting type arrives); where
+// that succeeds and a fresh inference of t2 builds the same kind of column, the used column must report the type the
+// fresh one reports and decode data of t2 to the rows the fresh one decodes.
+func c19CaseReinfer(h *H, t1, t2 string) {
+	caseLine := "reinfer " + hx([]byte(t1)) + " " + hx([]byte(t2))
+	used, _ := c19Infer(t1)
+	fresh, _ := c19Infer(t2)
+	src, _ := c19Infer(t2)
+	if used == nil || fresh == nil || src == nil || reflect.TypeOf(used) != reflect.TypeOf(fresh) {
+		h.Stat("reinfer-skip-kind")
+		return
+	}
+	inf, ok := used.(proto.Inferable)
+	if !ok {
+		h.Stat("reinfer-skip-not-inferable")
+		return
+	}
+	oracle := "ok"
+	crash := c19Safe(func() {
+		if h.R.Intn(2) == 0 {
+			// the column has held data of its first type
+			if c19Fill(h.R, used, t1, 3) {
+				if _, err := c19Encode(used); err != nil {
+					used.Reset()
+				}
+			}
+			used.Reset()
+		}
+		if err := inf.Infer(proto.ColumnType(t2)); err != nil {
+			h.Stat("reinfer-refused")
+			oracle = "-"
+			return
+		}
+		if got, want := used.Type(), fresh.Type(); got != want {
+			oracle = "FAIL:reinfer-type: inferred as " + c19Clean(strconv.Quote(t1)) + " and then as " + c19Clean(strconv.Quote(t2)) + " the column reports " + c19Clean(strconv.Quote(string(got))) + ", a fresh one " + c19Clean(strconv.Quote(string(want)))
+			return
+		}
+		n := 1 + h.R.Intn(4)
+		if !c19Fill(h.R, src, t2, n) || src.Rows() != n {
+			h.Stat("reinfer-skip-fill")
+			return
+		}
+		data, err := c19Encode(src)
+		if err != nil {
+			h.Stat("reinfer-skip-encode")
+			return
+		}
+		dec := func(c proto.Column) ([]string, error) {
+			c.Reset()
+			r := proto.NewReader(bytes.NewReader(data))
+			if n > 0 {
+				if st, ok := c.(proto.StateDecoder); ok {
+					if err := st.DecodeState(r); err != nil {
+						return nil, err
+					}
+				}
+			}
+			if err := c.DecodeColumn(r, n); err != nil {
+				return nil, err
+			}
+			if c.Rows() != n {
+				return nil, fmt.Errorf("%d rows after decoding %d", c.Rows(), n)
+			}
+			return c19Rows(c, n)
+		}
+		want, err := dec(fresh)
+		if err != nil {
+			h.Stat("reinfer-skip-fresh-decode")
+			return
+		}
+		got, err := dec(used)
+		switch {
+		case err != nil:
+			oracle = "FAIL:reinfer-decode: inferred as " + c19Clean(strconv.Quote(t1)) + " and then as " + c19Clean(strconv.Quote(t2)) + " the column does not decode what a fresh one decodes: " + c19Clean(err.Error())
+		case strings.Join(got, "\x00") != strings.Join(want, "\x00"):
+			oracle = "FAIL:reinfer-values: inferred as " + c19Clean(strconv.Quote(t1)) + " and then as " + c19Clean(strconv.Quote(t2)) + " the column decodes " + c19Clean(strings.Join(got, "|")) + ", a fresh one " + c19Clean(strings.Join(want, "|"))
+		}
+		h.Stat("reinfer-compared")
+	})
+	if crash != "" {
+		oracle = "FAIL:reinfer-panic " + c19Clean(crash)
+	}
+	if oracle != "-" {
+		h.Emit(caseLine, "-", oracle)
+	}
+}
+
+// c19ReinferPairs: types that differ in parameters only (what Conflicts lets through to a column's Infer)
+func c19ReinferPairs(r *rand.Rand) (string, string) {
+	defs := []string{"'a' = 1, 'b' = 2", "'a' = 1, 'b' = 2", "'c' = 1, 'd' = 2", "'a'=1,'b'=2", "'x' = -5, 'y' = 100, 'z' = 7", "'b' = 1, 'a' = 2"}
+	leaf := func() (string, string) {
+		switch r.Intn(5) {
+		case 0, 1:
+			w := func() string { return []string{"Enum8", "Enum16"}[r.Intn(2)] }
+			return w() + "(" + defs[r.Intn(len(defs))] + ")", w() + "(" + defs[r.Intn(len(defs))] + ")"
+		case 2:
+			return c19DateTime(r), c19DateTime(r)
+		case 3:
+			z := func() string { return []string{"", ", 'UTC'", ", 'Europe/Moscow'", ",'Asia/Tokyo'"}[r.Intn(4)] }
+			return "DateTime64(" + strconv.Itoa(r.Intn(10)) + z() + ")", "DateTime64(" + strconv.Itoa(r.Intn(10)) + z() + ")"
+		}
+		return "FixedString(" + strconv.Itoa(1+r.Intn(9)) + ")", "FixedString(" + strconv.Itoa(1+r.Intn(9)) + ")"
+	}
+	a, b := leaf()
+	if r.Intn(3) == 0 {
+		w := []string{"Array", "Nullable", "Array(Array"}[r.Intn(3)]
+		cl := strings.Repeat(")", strings.Count(w, "(")+1)
+		return w + "(" + a + cl, w + "(" + b + cl
+	}
+	return a, b
+}
+
 func c19Conf(a, b string) (letter byte) {
 	defer func() {
 		if p := recover(); p != nil {
@@ -957,6 +1115,18 @@ func runC19(h *H) {
 				}
 			}
 		}
+	}
+	// names as bases: every identifier of the dictionary around an element a column can be inferred for
+	for _, id := range c19Idents() {
+		for _, el := range []string{"Int8", "String", "DateTime64(3)", "DateTime", "Enum8('a' = 1)", "Array(Int8)", ""} {
+			t := id + "(" + el + ")"
+			c19CaseInfer(h, t, true, "ident-base")
+		}
+		c19CaseInfer(h, id, true, "ident-base")
+	}
+	for i := 0; i < 300+n/20; i++ {
+		a, b := c19ReinferPairs(r)
+		c19CaseReinfer(h, a, b)
 	}
 	for _, iv := range c19Intervals {
 		c19CaseTwo(h, "Interval"+iv)
